@@ -289,7 +289,7 @@ func RunWorker(p *Prop, tier, variant string, shard, nshards int, out string, bu
 	w.deadline = start.Add(budget)
 	caseDeadline := p.CaseDeadline
 	if caseDeadline == 0 {
-		caseDeadline = 120 * time.Second
+		caseDeadline = 40 * time.Second
 	}
 	// hang watchdog: an execution that does not finish within caseDeadline is
 	// reported as a "hang" violation of the case being executed.
